@@ -17,6 +17,7 @@ import rewards2coq  # noqa: E402
 import transition2coq  # noqa: E402
 import loops2coq  # noqa: E402
 import moments2coq  # noqa: E402
+import configs2coq  # noqa: E402
 
 # one entry per translated source file: translator module, source, committed generated file, equivalence proofs
 TIES = {
@@ -24,6 +25,7 @@ TIES = {
     'rewards': dict(mod=rewards2coq, src='rewards.py', gen='RewardsGen', equiv='GenRewardsEquiv'),
     'transition': dict(mod=transition2coq, src='state_space.py', gen='TransitionGen', equiv='GenTransitionEquiv'),
     'loops': dict(mod=loops2coq, src='distributions.py', gen='LoopsGen', equiv='GenLoopsEquiv'),
+    'configs': dict(mod=configs2coq, src='', gen='ConfigsGen', equiv='GenConfigsEquiv', src_is_dir=True),
     'moments': dict(mod=moments2coq, src='distributions.py', gen='MomentsGen', equiv='GenMomentsEquiv'),
 }
 
@@ -72,7 +74,7 @@ def run(res_proof: dict, pid: str = 'C14', tie: str = 'coalescent_models') -> No
             'equivalence_checked': False}
     res_proof.setdefault('translator', {})[tie] = info
     try:
-        text, funcs = tr.translate(open(src).read())
+        text, funcs = tr.translate(src if cfg.get('src_is_dir') else open(src).read())
     except (tr.Unsupported, SyntaxError, OSError) as e:
         res_proof['errors'].append(
             f'translate step [{tr.__name__}]: the translator failed closed on {src}: {e} - the equivalence theorems of '
